@@ -84,15 +84,24 @@ func vpWSReadMessage(c *websocket.Conn) (int, []byte, error) {
 	return -1, nil, vpPeerIdle()
 }
 
+// vpMsgReader is the reader NextReader hands out for one message. As with gorilla (a message may be
+// sent in several frames), a Read may deliver less than what is left: the first Read returns any
+// non-empty prefix.
 type vpMsgReader struct {
-	b []byte
+	b     []byte
+	reads int
 }
 
 func (r *vpMsgReader) Read(p []byte) (int, error) {
 	if len(r.b) == 0 {
 		return 0, io.EOF
 	}
-	n := copy(p, r.b)
+	r.reads++
+	avail := len(r.b)
+	if r.reads == 1 && avail > 1 {
+		avail = vpIntRange("first-frame-bytes", 1, avail)
+	}
+	n := copy(p, r.b[:avail])
 	r.b = r.b[n:]
 	return n, nil
 }
@@ -102,7 +111,7 @@ func vpWSNextReader(c *websocket.Conn) (int, io.Reader, error) {
 	if err != nil {
 		return mt, nil, err
 	}
-	return mt, &vpMsgReader{b}, nil
+	return mt, &vpMsgReader{b: b}, nil
 }
 
 func vpWSWriteMessage(c *websocket.Conn, mt int, b []byte) error {
@@ -227,9 +236,9 @@ func VP_C11_transport_close() {
 	vpAssert(vpPeer.closed, "websocket-close-closes-the-client-facing-connection")
 }
 
-//vp:property C06
+//vp:property C06 C08
 //vp:set n 3 6
-//vp:bounds WSPKT.ReadPacket / WritePacket: one websocket data message of either type (text, binary) and 0..n symbolic bytes, or a failing read; one packet of 0..n symbolic bytes written to a working or failing connection
+//vp:bounds WSPKT.ReadPacket / WritePacket (a message obtained through NextReader may arrive in frames: its first Read returns any non-empty prefix): one websocket data message of either type (text, binary) and 0..n symbolic bytes, or a failing read; one packet of 0..n symbolic bytes written to a working or failing connection
 //vp:assume gorilla/websocket.Conn as modelled by vpPeerT
 //vp:reach read-binary read-other read-failed wrote write-failed
 func VP_C06_ws_packets() {
